@@ -25,6 +25,11 @@ def fun_pow(x):
     return x ** 3 * 0.25 + (x + 0.5) ** 0.5 * x
 
 
+def fun_odd(x):
+    # odd, exactly rounded operations only, and not a polynomial
+    return x * x * x * 0.25 + x * np.sqrt(x * x + 0.5)
+
+
 def base_values(size):
     p = np.arange(size)
     return 0.75 + 0.125 * ((7 * p) % 11) - 0.25 * (p % 3)
@@ -80,6 +85,10 @@ def run_case(ri):
             # multicomplex: half of the cases use the power operator (bicomplex powers go through log/exp); for the other methods
             # numpy's array and scalar pow round differently, which would break the exactly-rounded premise of the bit-identity clauses
             FUN = fun_pow if (ri % 2 and r['m'] == 'multicomplex') else fun
+            if r['others'] == 'zero' and r['m'] == 'central' and r['n'] % 2 == 0 and ri % 2 == 0:
+                # an odd function: at the neighbours (exactly 0) every even-order central estimate is exactly 0 - a column whose estimates
+                # all coincide must not change how the other columns are selected
+                FUN = fun_odd
             d = nd.Derivative(FUN, n=r['n'], method=r['m'], order=r['o'], full_output=True)
             x = with_layout(vals, shape, r['layout'])
             v1, i1 = d(x)
